@@ -101,6 +101,8 @@ func runC18(s *kernel.Sim) {
 		updateFail bool
 		peerFail   int // 0 none, 1 "no available" internal, 2 other internal, 3 transport-style error
 		forced     bool
+		nodeFail   string // "", RemoveTrustedPeer, DisconnectPeer: the node answers the k-th such call of the round with an error
+		nodeFailK  int
 	}
 	plans := make([]roundPlan, rounds)
 	for r := range plans {
@@ -130,7 +132,12 @@ func runC18(s *kernel.Sim) {
 		pl.updateFail = s.Choose("updatefail", 8) == 0
 		pl.peerFail = []int{0, 0, 0, 0, 1, 2, 3}[s.Choose("peerfail", 7)]
 		pl.forced = r > 0 && s.Choose("forced", 3) == 0
+		if s.Choose("nodefail", 5) == 0 {
+			pl.nodeFail = []string{"RemoveTrustedPeer", "DisconnectPeer"}[s.Choose("nodefailwhat", 2)]
+			pl.nodeFailK = s.Choose("nodefailk", 3)
+		}
 	}
+	node.RecordFailed = true
 	done := false
 	var mu sync.Mutex
 	s.Go("director", func() {
@@ -151,6 +158,12 @@ func runC18(s *kernel.Sim) {
 				}
 				p.Network.RemoteAddress = universe[i].localAddr
 				node.PeerSet = append(node.PeerSet, p)
+			}
+			node.FailNext["RemoveTrustedPeer"], node.FailNext["DisconnectPeer"] = 0, 0
+			node.FailAfter = map[string]int{}
+			if pl.nodeFail != "" {
+				node.FailNext[pl.nodeFail] = 1
+				node.FailAfter[pl.nodeFail] = pl.nodeFailK
 			}
 			node.Unlock()
 			sp.Lock()
@@ -194,7 +207,14 @@ func runC18(s *kernel.Sim) {
 			mu.Lock()
 			checkRound(s, r, how, strict, target, node, universe, pl.local, pl.active, pl.invalid, pl.newHosts, pl.updateFail, pl.peerFail, calls, pcalls, err)
 			mu.Unlock()
-			if pl.updateFail || (pl.peerFail == 3 && target-len(pl.active) > 0) {
+			nodeFailed := false
+			for _, c := range calls {
+				nodeFailed = nodeFailed || c.Failed
+			}
+			if nodeFailed && err == nil && how != "tick" {
+				s.Violate("reconcile", "an error of the node while dropping a peer is not reported", "round %d (%s): UpdatePeers returned nil", r, how)
+			}
+			if pl.updateFail || (pl.peerFail == 3 && target-len(pl.active) > 0) || nodeFailed {
 				// the loop (or Start) ended with the error: no further rounds
 				return
 			}
